@@ -31,6 +31,7 @@ def REQUIRED(tier):  # noqa: N802
             "gameplan_object_decodes": 500, "big_n_decodes": 8,
             "concurrent_game_decodes": 2000,
             "long_narrow_plan_decodes": 16,
+            "all_team_counts_decodes": 240,
             "suite_runs": 1,
             "contract_map_games_evaluated": 1000}
 
@@ -311,6 +312,55 @@ def decode_shard(ctx, count, part, parts):
             check_decode(ctx, n, r, days, q, dest, None, sp)
             ctx.count("long_narrow_plan_decodes")
             ctx.count(f"perm[{tag}]")
+    from moptipy.utils.nputils import int_range_to_dtype
+    from moptipyapps.ttp.game_encoding import (
+        map_games,
+        search_space_for_n_and_rounds,
+    )
+    # every team count from 17 to 260 (this shard's share), one round: the
+    # decoded plan must be mutually consistent and may contain no game more
+    # often than the permutation does (index arithmetic that is wrong for
+    # isolated team counts only)
+    for n in range(17 + part, 261, parts):
+        # (each pair once with a random orientation; the search space
+        # object itself takes seconds to build for such n)
+        q = []
+        for i in range(n):
+            for j in range(i):
+                h, a = (i, j) if rng.integers(2) else (j, i)
+                q.append(h * (n - 1) + (a if a < h else a - 1))
+        q.sort()
+        if n % 3:
+            rng.shuffle(q)
+        days = n - 1 if n % 2 == 0 else n
+        y = np.zeros((days, n), int_range_to_dtype(-n, n))
+        x = np.array(q, int_range_to_dtype(0, n * (n - 1) - 1))
+        map_games(x, y)
+        ctx.case()
+        ctx.count("all_team_counts_decodes")
+        have = Counter(game_to_pair(g, n) for g in q)
+        seen_games: Counter = Counter()
+        okp = True
+        yl = y.tolist()
+        for d, row in enumerate(yl):
+            for a, v in enumerate(row):
+                if v > 0:
+                    b = v - 1
+                    if b == a or b >= n or row[b] != -(a + 1):
+                        okp = False
+                    seen_games[(a, b)] += 1
+                elif v < 0:
+                    b = -v - 1
+                    if b == a or b >= n or row[b] != a + 1:
+                        okp = False
+        if not okp or any(c > have[k] for k, c in seen_games.items()):
+            ctx.violation("plan:game-more-often-than-in-permutation"
+                          if okp else "plan:inconsistent",
+                          f"n={n}, one round: the decoded plan is "
+                          f"{'inconsistent' if not okp else 'not a sub-multiset of the permutation'}",
+                          {"kind": "decode", "n": n, "rounds": 1,
+                           "days": days, "perm": q, "object": False})
+            break
     it = 0
     while done < count:
         n, r = combos[int(rng.integers(len(combos)))]
